@@ -323,6 +323,9 @@ void XMLWriter::labels(int x, int y, const edge_t& edge)
     if (!edge.assign.empty()) {
         label("assignment", edge.assign.str(), x, y + 16);
     }
+    if (!edge.prob.empty()) {
+        label("probability", edge.prob.str(), x, y + 32);
+    }
 }
 
 /** writes a template */
